@@ -416,7 +416,7 @@ class Vcf(Format):
             if style.get("rich_format") and rng.random() < 0.5:
                 # records may use different FORMATs; sample fields then carry more sub-fields after the genotype
                 fmt_keys = "GT:AD:DP:GQ:PL"
-                samples = ["%s:%d,%d:%d:%d:%s" % (g, rng.randint(0, 99), rng.randint(0, 99), rng.randint(0, 500), rng.randint(0, 99), ",".join(str(rng.randint(0, 9999)) for _ in range(3))) for g in gts]
+                samples = ["%s:%d,%d:%d:%d:%s" % (g, rng.randint(0, 99), rng.randint(0, 99), rng.randint(0, 500), rng.randint(0, 99), ",".join(str(rng.randint(0, 99999)) for _ in range(rng.choice([3, 6, 10])))) for g in gts]
                 texts += [fmt_keys] + samples
             else:
                 texts += ["GT"] + gts
